@@ -233,8 +233,15 @@ def segment(items):
     return nodes
 
 
+def policy(v):
+    if isinstance(v, dict):
+        return dict(bmc=bool(v.get('between-macro-and-chars', False)), blc=bool(v.get('between-latex-constructs', False)),
+                    ac=bool(v.get('after-comment', False)), ineq=v.get('in-equations'))
+    return PRESETS[v]
+
+
 def render(items, o, sl=None, math=False):
-    sl = sl or PRESETS[o.get('strict_latex_spaces', False)]
+    sl = sl or policy(o.get('strict_latex_spaces', False))
     nodes = segment(items)
     out = ''
     prev = None
